@@ -3,6 +3,7 @@ From BBF Require Import Base.Prelude Base.Names Base.Bits Spec.Sem
      Model.Expr Model.Table Model.LibBdd Model.Bdd
      Proofs.ExprProofs Proofs.TableProofs Proofs.QuantProofs Proofs.NfProofs Proofs.DdProofs Proofs.BddProofs Proofs.BddOps
      Proofs.ConvProofs Proofs.RenderProofs Proofs.EnumProofs Proofs.DualityProofs.
+From BBF Require Import Model.Lexer Model.Parser Model.Display Model.Render Model.Csv Model.Prog Proofs.ProgProofs Proofs.ConvChain Proofs.OpsObjects.
 From Coq Require Import Sorting.Permutation.
 Theorem C07_expr_derivative_sem : forall vars e v, sem v (e_derivative e vars) = elim_fn xorb vars (fun w => sem w e) v.
 Proof. exact e_derivative_sem. Qed.
@@ -55,3 +56,11 @@ Theorem C07_derivative_of_negation : forall x r f v,
   elim_fn xorb (x :: r) (fun w => negb (f w)) v = elim_fn xorb (x :: r) f v.
 Proof. exact derivative_of_negation. Qed.
 Print Assumptions C07_derivative_of_negation.
+
+(* ---- an object of any representation (quant_op QDeriv = xorb) ---- *)
+Theorem C07_objects : forall o vars, owf o ->
+  exists o', exec_quant QDeriv o vars = Ok o' /\ owf o' /\ obj_kind o' = obj_kind o /\
+             (forall v, osem o' v = elim_fn xorb vars (osem o) v) /\
+             decl o' = set_diff (decl o) vars.
+Proof. intros o vars. exact (obj_quant_spec QDeriv o vars). Qed.
+Print Assumptions C07_objects.
